@@ -169,7 +169,7 @@ def check(rec, kind, idx, rng, tier):
         a = gen.sprinkle(a, rng, float(rng.choice([0.05, 0.2])), where='random').astype(dt)
     geom = gen.random_geom(rng)
     attrs = {'res': (geom['cx'], geom['cy']), 'nested': {'k': [1]}}
-    r = gen.mk(a, attrs=attrs, name='in', extra=bool(rng.random() < 0.3), **geom)
+    r = gen.mk(gen.rand_layout(a, rng), attrs=attrs, name='in', extra=bool(rng.random() < 0.3), **geom)
     for conn in (4, 8):
         rec.evaluation()
         nm = {} if rng.random() < 0.5 else {'name': 'lbl'}
